@@ -2,6 +2,7 @@
 From Coq Require Import String List Bool Arith.
 From Verif Require Import Base.ListX Base.Json Base.Free Pub.Events Pub.Calls Pub.Value Pub.EffectSpec Pub.Util Pub.SideEffect Pub.Fed Pub.Monitors.
 From Verif Require Import Proofs.OnlyProofs Proofs.OrderProofs Proofs.EffectProofs Proofs.FedProofs Proofs.AuthorityProofs.
+From Verif Require Import Proofs.ForwardIffProofs Proofs.StoreProofs Proofs.AuthorityStoreProofs.
 Import ListNotations.
 Open Scope string_scope.
 Open Scope list_scope.
@@ -52,6 +53,34 @@ Example C06_example :
                            ("object", JObj [("type", JStr "Note"); ("id", JStr "https://a.example:8443/n")])]) = Err EGeneric.
 Proof. vm_compute. repeat split. Qed.
 
+(* ---- the same against EVERY environment (any function from events to answers), with S env m = the storing / sending
+   events of the run: an Update / Delete whose objects are not of the activity's origin does not succeed and stores nothing;
+   whenever one succeeds every object id has the host of the activity's id; an Undo by someone who is not an actor of what is
+   undone does not succeed and the application's Undo callback does not run (and it does run when the check passes) ---- *)
+Theorem C06_update_foreign_origin_nothing : forall env cfg a, (forall u, must_origin_match a <> Ok u) ->
+  (forall u, res_env env (Fed.update cfg a) <> Ok u) /\ S env (Fed.update cfg a) = [].
+Proof. exact update_foreign_origin_nothing. Qed.
+Theorem C06_delete_foreign_origin_nothing : forall env cfg a, (forall u, must_origin_match a <> Ok u) ->
+  (forall u, res_env env (Fed.delete cfg a) <> Ok u) /\ S env (Fed.delete cfg a) = [].
+Proof. exact delete_foreign_origin_nothing. Qed.
+Theorem C06_update_ok_hosts : forall env cfg a u, res_env env (Fed.update cfg a) = Ok u ->
+  exists origin, get_id a = Ok origin /\ is_nil origin = false /\
+    Forall (fun e => exists i, to_id "object" e = Ok i /\ is_nil i = false /\ host_of i = host_of origin) (elems0 "object" a).
+Proof. exact update_ok_hosts. Qed.
+Theorem C06_delete_ok_hosts : forall env cfg a u, res_env env (Fed.delete cfg a) = Ok u ->
+  exists origin, get_id a = Ok origin /\ is_nil origin = false /\
+    Forall (fun e => exists i, to_id "object" e = Ok i /\ is_nil i = false /\ host_of i = host_of origin) (elems0 "object" a).
+Proof. exact delete_ok_hosts. Qed.
+Theorem C06_undo_foreign_actor_no_callback : forall env cfg inbox a,
+  (forall u, res_env env (must_actors_match inbox a) <> Ok u) ->
+  (forall u, res_env env (undo cfg inbox a) <> Ok u) /\
+  forallb (not_wrapped_call "Undo") (evs_env env (undo cfg inbox a)) = true /\
+  forall args, ~ In (EApp "Wrapped:Undo" args) (evs_env env (undo cfg inbox a)).
+Proof. exact undo_foreign_actor_no_callback. Qed.
+Theorem C06_undo_ok_callback : forall env cfg inbox a u, mem "Undo" (c_fed_wrapped cfg) = true ->
+  res_env env (undo cfg inbox a) = Ok u -> In (EApp "Wrapped:Undo" [canon a]) (evs_env env (undo cfg inbox a)).
+Proof. exact undo_ok_callback. Qed.
+
 Print Assumptions C06_origin.
 Print Assumptions C06_update_needs_origin.
 Print Assumptions C06_delete_needs_origin.
@@ -59,3 +88,9 @@ Print Assumptions C06_accept.
 Print Assumptions C06_undo.
 Print Assumptions C06_blocked.
 Print Assumptions C06_blocked_ids.
+Print Assumptions C06_update_foreign_origin_nothing.
+Print Assumptions C06_delete_foreign_origin_nothing.
+Print Assumptions C06_update_ok_hosts.
+Print Assumptions C06_delete_ok_hosts.
+Print Assumptions C06_undo_foreign_actor_no_callback.
+Print Assumptions C06_undo_ok_callback.
